@@ -1,6 +1,7 @@
 //@ tu: libxcm/tp/common/xcm_tp.c
 //@ enforce: xcm_tp_socket_accept
 //@ replace: xv_init_stub xv_connect_stub xv_server_stub xv_close_stub xv_cleanup_stub xv_accept_stub xv_send_stub xv_receive_stub xv_update_stub xv_finish_stub xv_enable_ctl_stub xv_priv_size_stub ctl_process ctl_create ctl_destroy get_next_sock_id
+//@ flags: --object-bits 10
 //@ props: C04 C14 C08
 //@ expect: postcondition>=7 canary=9
 #include "_unit.h"
@@ -18,6 +19,6 @@ void harness(void)
     if (rv == -1 && xv_errno == EAGAIN && xv_ctlp_calls == p0 + 1 && xv_ctlp_seq == xv_seq - 1) XV_CANARY("EAGAIN, poll due: server ctl processed between accept and update");
     if (rv == 0 && xv_ctlp_calls == p0 + 1) XV_CANARY("accepted, poll due");
     if (rv == 0 && xv_ctlc_calls == c0 + 1 && xv_ctl_live == l0 + 1) XV_CANARY("accepted: control interface of the new connection created");
-    if (xv_t == xv_upd_s && xv_updt_calls == t0 + 1 && xv_upd_calls == u0 + 2) XV_CANARY("tracked socket is the server");
-    if (xv_t == xv_op_s && xv_updt_calls == t0 + 1) XV_CANARY("tracked socket is the new connection");
+    if (xv_t == xv_op_a1 && xv_updt_calls == t0 + 1 && xv_updt_seq == xv_seq && xv_upd_calls == u0 + 2) XV_CANARY("tracked socket is the server");
+    if (xv_t == xv_op_s && xv_updt_calls == t0 + 1 && xv_updt_seq < xv_seq) XV_CANARY("tracked socket is the new connection");
 }
